@@ -1223,7 +1223,21 @@ class Interp:
             return self.env.apply_contract(self, c, fi, args, kwargs)
         if 'abstractmethod' in fi.decorators:
             raise Unsupported(f'call of abstract method {fi.qualname}')
+        if 'dispatch' in fi.decorators and fi.cls is not None:
+            # multipledispatch: the overload is chosen by the number of positional arguments (types are not examined;
+            # the repository's overloads differ in arity)
+            npos = len(args) - (1 if fv.self_val is not None else 0)
+            cands = []
+            for cand in fi.cls.overloads.get(fi.name, [fi]):
+                for dec in cand.node.decorator_list:
+                    if isinstance(dec, ast.Call) and getattr(dec.func, 'id', None) == 'dispatch' and len(dec.args) == npos:
+                        cands.append(cand)
+            if len(cands) != 1 or kwargs:
+                raise Unsupported(f'@dispatch overload of {fi.qualname} for {npos} arguments')
+            fi = cands[0]
         for d in fi.decorators:
+            if d == 'dispatch':
+                continue
             if d not in ('staticmethod', 'classmethod', 'property', 'setter', 'abstractmethod') \
                     and d not in self.env.transparent_decorators:
                 raise Unsupported(f'decorator @{d} on {fi.qualname}')
